@@ -520,7 +520,7 @@ impl Cluster {
                 client.left(&dbs);
             } else {
                 match process_request(&line, &dbs, &mut client) {
-                    Response::Error { msg } => {
+                    Response::Error { msg } | Response::VersionError { msg, .. } => {
                         let _ = client.sender.try_send(format!("error {} \n", msg));
                     }
                     _ => {
